@@ -17,6 +17,11 @@ with pandas (numpy's global generator seeded from the run's PRNG).  On every rea
   database: labels distinct / absent / repeated / equal to an automatic one, shared or numeric
   nest parameters, old tuple syntax; the Lean model `nestedSampledLL` is compared with the engine
   on complete and partial samples) and for `get_cross_nested_logit` vs `models.logcnl`;
+* round 3: both input frames carry row labels that are not row positions (permuted, gapped, repeated, strings,
+  floats); the database comes from the first call, a second call on the same object or the recycled file; the whole
+  merged table is recomputed by the Lean model of the labelled frames (`sampleAndMerge`); the cross-nested model has a
+  Lean model (`cnlSampledLL`, `fullCnlLL`); the real signature texts of the three likelihoods are run by the proved engine
+  model (lib/leanrun); `generate_segment_size` is modelled;
 * `Partition` is compared with the model and the oracle (non-empty, pairwise disjoint, union =
   full set) on random lists of 1-6 segments with the fault at any position and on every list of
   at most 3 (thorough: 4) segments over three ids.
@@ -31,42 +36,53 @@ os.environ.setdefault('TQDM_DISABLE', '1')
 
 import numpy as np
 
-from lib import core
+from lib import core, leanrun
 from lib.core import Result, f2b, b2f, close
 
 READY = True
+EXTRA_MODULES = list(leanrun.MODULES)
 MANIFEST = dict(
     text='Proof (Lean 4): for every partition, choice and outcome of the random draws (contract: n distinct rows of the frame sampled) '
     'sample_alternatives lists the chosen alternative first, has no duplicate, exactly k rows per stratum, each row in its stratum with the term '
     'log k - log n = ln(k/n) (C19.protocol_facts, correction_is_log_ratio), second sample with weights n/k (mev_facts); check_partition and Partition '
-    'accept exactly the valid inputs (context_validation, partition_validity: every pair of segments, neighbours or not); generated column names never collide and combined variable / utility i read '
-    'the attributes of sampled alternative i (column_names_injective, combined_own_attributes, utility_reads_index_i); with complete sampling every '
-    'protocol-conforming result is a permutation of the choice set, all corrections are 0 and the sampled logit log likelihood equals the full one over R '
+    'accept exactly the valid inputs (context_validation, partition_validity: every pair of segments, neighbours or not); generate_segment_size returns one size per segment, '
+    'summing to the requested total, equal up to one (segment_sizes_cover, segment_sizes_refusals); generated column names never collide and combined variable / utility i read '
+    'the attributes of sampled alternative i (column_names_injective, combined_own_attributes, utility_reads_index_i); '
+    'ROW LABELS are a parameter of the model of the frames: the drawn rows are rows of the table of alternatives found by id whatever its index (sampled_rows_own_attributes), the returned sample frame is '
+    'labelled by position (sample_frame_labels_are_positions; kept_labels_collide shows why), and for every index of the individuals (permuted, gapped, repeated, non-integer) row p of the merged table is '
+    'individual p followed by the samples drawn by call p, with the chosen alternative in <id>_0 (merged_table_by_position, merged_row_own_sample, merge_ignores_labels, merged_row_lists_choice_first); '
+    'with complete sampling every protocol-conforming result is a permutation of the choice set, all corrections are 0 and the sampled logit log likelihood equals the full one over R '
     '(full_sample_perm, full_sample_corrections_zero, full_sample_equiv, full_sample_equiv_code); in the generated nested logit every nest reads its own MEV sum from the dictionary keyed by its '
     'alternatives, whatever the labels (nest_sum_lookup), and with complete sampling of both samples its log likelihood equals the nested logit on the full choice set over R '
-    '(nested_full_sample_equiv, nested_full_sample_equiv_code). Tie: the relation and the deterministic model are evaluated by the Lean '
-    'driver on every real sample (many seeds); Partition against the model on random lists of 1-6 segments with faults at any position and bounded-exhaustively (all lists of <= 3/4 segments over 3 ids); '
-    'real-engine likelihood of get_logit / get_nested_logit / get_cross_nested_logit vs loglogit / lognested / logcnl on the full choice set; get_nested_logit vs the Lean model on complete and partial samples '
-    '(nest labels distinct, absent, repeated, equal to an automatic one; shared or numeric nest parameters; old tuple syntax).',
+    '(nested_full_sample_equiv, nested_full_sample_equiv_code); the generated CROSS-NESTED logit is now modelled (alphas as columns named after the nest, MEV sums in a dictionary keyed by the name, logzero / conditional sums): '
+    'with distinct names every nest reads its own sum (cnl_sum_lookup; cnl_same_name_reads_other_sum is the witness of known finding F-C19-3) and with complete sampling of both samples its log likelihood equals '
+    'models.logcnl on the full choice set over R (cnl_full_sample_equiv, cnl_full_sample_equiv_code). '
+    'Tie: the relation and the deterministic model are evaluated by the Lean driver on every real sample (many seeds); the whole merged table of every case is recomputed by Sampling.sampleAndMerge from the labelled individuals and '
+    'the frames really returned by the samplings and compared by position; input frames carry 11 kinds of index (individuals and alternatives), the database is taken from the first call, a second call on the same object, or read back with recycle=True; '
+    'Partition against the model on random lists of 1-6 segments with faults at any position and bounded-exhaustively (all lists of <= 3/4 segments over 3 ids); generate_segment_size against model and oracle; '
+    'real-engine likelihood of get_logit / get_nested_logit / get_cross_nested_logit vs loglogit / lognested / logcnl on the full choice set (complete sampling) and vs the Lean models sampledLL / nestedSampledLL / cnlSampledLL on complete and partial samples '
+    '(nest labels distinct, absent, repeated, equal to an automatic one; shared or numeric nest parameters; old tuple syntax); the REAL signature text of these likelihoods is run by the proved engine model (lib/leanrun, C01.engine_reads_text / engine_correct) '
+    'and must agree with the semantic Lean model and with the real engine.',
     design='DESIGN.md §5 C19',
-    technique='Lean 4 theorems over an executable model of the sampling protocol + relation evaluated on real samples + differential correspondence through the real engine',
-    note='Partial: pandas DataFrame.sample is treated relationally (its contract is monitored on every real sample); the cross-nested generated model '
-    'is only checked numerically (complete sampling of both samples, vs models.logcnl; no Lean model of its MEV terms); '
-    'IEEE rounding of log/exp is not modelled (tolerances stated). One defect is listed as known finding F-C19-1 (rename_elementary renames a shared Variable object twice when '
-    'columns X and X_<i> exist; C19.shared_object_renamed_twice is the witness, the model is the repaired behaviour).',
+    technique='Lean 4 theorems over an executable model of the sampling protocol and of the labelled frames + relation evaluated on real samples + differential correspondence through the real engine and through the proved engine model',
+    note='Partial: pandas DataFrame.sample is treated relationally (its contract is monitored on every real sample); DataFrame.apply(axis=1) / stack / concat(ignore_index) are modelled, not proved about pandas (tied on every case, labels included); '
+    'the labels of the rows of the RETURNED database are not part of the property and are not compared; SamplingContext.reporting (a text summary) is outside the property; '
+    'IEEE rounding of log/exp/pow is not modelled (tolerances stated); a nest of a sampled alternative without any row in a partial second sample (log 0 / 0 ** x) is skipped. Two defects are listed as known findings: F-C19-1 (rename_elementary renames a shared Variable object twice when '
+    'columns X and X_<i> exist; C19.shared_object_renamed_twice is the witness, the model is the repaired behaviour) and F-C19-3 (cross-nested nests carrying the same name are accepted and the second overwrites the first; the model is the repaired context that refuses them).',
 )
 TRUSTED = [
-    'pandas: DataFrame.sample(n, replace=False) returns n distinct rows of the frame (monitored: picksOK on every real sample); concat/stack/apply primitives',
-    'the C++ engine evaluates the generated logit expression (compared with the Lean Float model at 1e-9)',
-    'numpy log vs Lean Float.log agree to 1e-12 relative',
+    'pandas: DataFrame.sample(n, replace=False) returns n distinct rows of the frame (monitored: picksOK on every real sample); apply(axis=1) / stack / concat / boolean-mask primitives behave as modelled (compared on every case, with non-default indexes)',
+    'the C++ engine evaluates the generated expressions (compared with the Lean Float models at 1e-9, and with the proved engine model run on the real signature text)',
+    'numpy log vs Lean Float.log agree to 1e-12 relative; pandas read_csv float parser within 1e-12 (recycle=True)',
 ]
 ASSUMPTIONS = [
     'segments are Python sets (duplicate free); sample sizes are non-negative integers (a negative size passes check_partition and fails later inside pandas)',
-    'column names of the individuals do not shadow generated names <attribute>_<i> (hypothesis htail of combined_own_attributes)',
+    'column names of the individuals do not shadow generated names <attribute>_<i> (hypothesis htail of combined_own_attributes); the id column is not called _MEV_...',
+    'cross-nested nests: distinct names (enforced by the proposed repair F-C19-3), non-zero alphas in dict_of_alpha, non-zero nest parameters (ValidCnl)',
 ]
 RULE = (
-    'one evaluation = one real sample (sample_alternatives / sample_mev_alternatives / one merged row) or one validation call; '
-    'non-trivial = sample of >= 3 rows from >= 2 strata or with a partially sampled stratum, or a refused context'
+    'one evaluation = one real sample (sample_alternatives / sample_mev_alternatives / one merged row / one likelihood row of a nest configuration) or one validation call '
+    '(context, Partition, generate_segment_size); non-trivial = sample of >= 3 rows from >= 2 strata or with a partially sampled stratum, a refused input, or a size request with a remainder'
 )
 
 LOG_PROBA = '_log_proba'
@@ -139,6 +155,50 @@ def formula_vars(f):
     return out
 
 
+INDEX_KINDS = ['perm', 'perm', 'rev', 'gap', 'dup', 'dup_all', 'str', 'neg', 'shift', 'float', 'big_perm']
+
+
+def gen_index(rng, n, kind):
+    """row labels of a frame of n rows that are not the row positions: what ordinary pandas
+    manipulations leave behind (sort_values / sample(frac=1): permutation; filter: gaps; concat:
+    repeats; set_index: strings, floats)"""
+    if kind == 'default' or n == 0:
+        return None
+    if kind == 'perm':
+        lab = list(range(n))
+        rng.shuffle(lab)
+        if lab == list(range(n)) and n > 1:
+            lab = lab[1:] + lab[:1]
+        return lab
+    if kind == 'rev':
+        return list(range(n - 1, -1, -1))
+    if kind == 'gap':
+        return sorted(rng.sample(range(0, 3 * n + 5), n))
+    if kind == 'dup':
+        return [rng.randrange(max(1, n - 1)) for _ in range(n)]
+    if kind == 'dup_all':
+        return [rng.choice([0, 1, 7])] * n
+    if kind == 'str':
+        lab = [f'r{j}' for j in range(n)]
+        rng.shuffle(lab)
+        return lab
+    if kind == 'neg':
+        return [-(j + 1) for j in range(n)]
+    if kind == 'shift':
+        return list(range(1, n + 1))
+    if kind == 'float':
+        return [j + 0.5 for j in range(n)]
+    if kind == 'big_perm':
+        lab = [1000 + 10 * j for j in range(n)]
+        rng.shuffle(lab)
+        return lab
+    raise ValueError(kind)
+
+
+def index_kind(case, key):
+    return (case.get('index_kinds') or {}).get(key, 'default') if case.get(key) is not None else 'default'
+
+
 def gen_case(rng, complete=None, with_mev=None, size=None):
     n = size or rng.choice([4, 5, 6, 7, 9, 12, 17, 30, rng.randint(4, 30)])
     ids = rng.sample(range(0, 400), n)
@@ -169,7 +229,7 @@ def gen_case(rng, complete=None, with_mev=None, size=None):
         sizes2 = [len(s) if complete else rng.randint(1, len(s)) for s in seg2]
         mev = {'segments': seg2, 'sizes': sizes2}
     # individuals
-    n_ind = rng.randint(1, 5)
+    n_ind = rng.randint(1, 6)
     icols = rng.sample(IND_POOL, rng.randint(1, 2))
     irows = [[dy(rng) for _ in icols] for _ in range(n_ind)]
     choices = [rng.choice(ids) for _ in range(n_ind)]
@@ -202,7 +262,14 @@ def gen_case(rng, complete=None, with_mev=None, size=None):
     if vmax > 50.0:
         util = ['/', util, ['c', float(2 ** math.ceil(math.log2(vmax / 50.0)))]]
     share = rng.random() < 0.5 and not clash_pairs([id_col] + cols + [c[0] for c in combined])
+    # row labels of the two input frames (None = the default RangeIndex) and the way the merged
+    # database is obtained (first call / second call on the same object / read back with recycle=True)
+    ik = rng.choice(INDEX_KINDS) if rng.random() < 0.55 else 'default'
+    ak = rng.choice(INDEX_KINDS) if rng.random() < 0.4 else 'default'
+    call = rng.choice(['first', 'first', 'first', 'second', 'recycle'])
     return {
+        'ind_index': gen_index(rng, n_ind, ik), 'alt_index': gen_index(rng, n, ak), 'index_kinds': {'ind_index': ik, 'alt_index': ak},
+        'call': call,
         'share': share,
         'id_col': id_col, 'ids': ids, 'cols': cols, 'values': values, 'int_valued': int_valued,
         'segments': segments, 'sizes': sizes, 'mev': mev,
@@ -248,10 +315,14 @@ def frames(case):
         col = [r[j] for r in case['values']]
         alt[c] = [int(v) for v in col] if case.get('int_valued') else col
     alternatives = pd.DataFrame(alt)
+    if case.get('alt_index') is not None:
+        alternatives.index = list(case['alt_index'])
     ind = {case['choice_col']: list(case['choices'])}
     for j, c in enumerate(case['icols']):
         ind[c] = [r[j] for r in case['irows']]
     individuals = pd.DataFrame(ind)
+    if case.get('ind_index') is not None:
+        individuals.index = list(case['ind_index'])
     return alternatives, individuals
 
 
@@ -426,6 +497,7 @@ def check_sampling(ctx, res, case, n_seeds):
                       nontrivial=len(ids) >= 3 and (len(strata) >= 2 or partial))
             res.tally(f'strata={len(strata)}')
             res.tally('complete' if not partial else 'partial')
+            res.tally(f'sample: alternatives index:{index_kind(case, "alt_index")}')
             why = oracle_sample(strata, chosen, ids, lps)
             if why:
                 res.violate(f'sample_alternatives: {why}', sub, {'ids': ids, 'log_proba': lps},
@@ -457,6 +529,22 @@ def check_sampling(ctx, res, case, n_seeds):
                     res.diverge('rows of sample_alternatives vs Sampling.sampleAlternatives', sub, {'ids': mids, 'lp': mlp}, {'ids': ids, 'lp': lps})
 
             ctx.batch.add(req, cb)
+            # the rows handed over are rows of the table of alternatives found by id, whatever its labels
+            alt_labels = case.get('alt_index') if case.get('alt_index') is not None else list(range(len(case['ids'])))
+            tcols = [idc] + list(case['cols'])
+            req2 = {'op': 'altrows', 'ids': ids,
+                    'alts': [[str(alt_labels[p]), int(i), [f2b(float(i))] + [f2b(v) for v in vals]] for p, (i, vals) in enumerate(zip(case['ids'], case['values']))]}
+            got_rows = [[f2b(fnum(df.iloc[k][c])) for c in tcols] for k in range(len(df))]
+            got_labels = [x for x in df.index]
+
+            def cb_rows(ans, got_rows=got_rows, got_labels=got_labels, sub=sub):
+                want = [[int(b) for b in r[1]] for r in ans.get('rows', [])]
+                if want != got_rows:
+                    res.diverge('rows of sample_alternatives vs Sampling.rowsOfIds (own attributes, table looked up by id)', sub, want, got_rows)
+                # (the labels of the returned frame are observed, not demanded: the property speaks of the merged rows)
+                res.tally('sample frame labels: 0..J-1' if got_labels == list(range(len(got_rows))) else 'sample frame labels: other')
+
+            ctx.batch.add(req2, cb_rows)
     if case.get('mev'):
         strata2 = strata_of(case, 'mev')
         for _ in range(n_seeds):
@@ -522,16 +610,32 @@ def merged_run(case):
 
         soa.sample_alternatives = spy1
         soa.sample_mev_alternatives = spy2
+        call = case.get('call', 'first')
+        if call == 'second':
+            # an earlier call on the same object (other draws) must leave nothing behind
+            np.random.seed((case['np_seed'] + 1) % 2**31)
+            gen.sample_and_merge(recycle=False)
         np.random.seed(case['np_seed'])
         db = gen.sample_and_merge(recycle=False)
+        # the samplings that produced the returned table: the last one per individual
+        n_ind = len(case['choices'])
+        rec1[:] = rec1[-n_ind:]
+        rec2[:] = rec2[-n_ind:]
+        if call == 'recycle':
+            # the database read back from the file written by the first call
+            n1, n2 = len(rec1), len(rec2)
+            db = gen.sample_and_merge(recycle=True)
+            del rec1[n1:], rec2[n2:]
         data = db.data.copy()
         model = GenerateModel(context)
         ll = model.get_logit()
-        values = ll.get_value_c(database=db, prepare_ids=True)
+        obs = leanrun.observe(ll, db)
+        if 'values' not in obs:
+            raise RuntimeError(obs.get('error'))
         attributes = sorted(context.attributes)
         J = context.total_sample_size
         J2 = context.second_sample_size
-    return data, rec1, rec2, [float(v) for v in np.atleast_1d(values)], attributes, J, J2
+    return data, rec1, rec2, obs, attributes, J, J2
 
 
 def full_model_ll(case):
@@ -569,10 +673,19 @@ def full_model_ll(case):
     return [float(v) for v in np.atleast_1d(values)]
 
 
+def same_cell(case, a, b):
+    """cells of the merged table: bit for bit, except for a database read back from the CSV file
+    (recycle=True): pandas' default float parser is not exactly round-trip (1 ulp), tolerance 1e-12"""
+    if case.get('call') == 'recycle':
+        return close(a, b, 1e-12, 1e-12)
+    return f2b(a) == f2b(b)
+
+
 def check_merge(ctx, res, case):
     """sample_and_merge, define_new_variables, get_logit on one seed"""
     try:
-        data, rec1, rec2, ll_values, attributes, J, J2 = merged_run(case)
+        data, rec1, rec2, obs, attributes, J, J2 = merged_run(case)
+        ll_values = obs['values']
     except Exception as e:  # noqa: BLE001
         res.count({'merge_raises': case['segments'], 'sizes': case['sizes'], 'seed': case['np_seed']})
         res.violate(f'sample_and_merge / get_logit raises on a valid context: {type(e).__name__}: {e}', {'kind': 'merge', 'case': slim(case), 'row': 0},
@@ -594,7 +707,14 @@ def check_merge(ctx, res, case):
         res.violate('sample_and_merge: one merged row per individual expected', slim(case), [len(data), len(rec1)], n_rows,
                     where='ChoiceSetsGeneration.sample_and_merge')
         return
+    holder = {'o': obs, 'sub': {'kind': 'merge', 'case': slim(case), 'row': 0}, 'what': 'get_logit', 'sem': [None] * n_rows,
+              'where': F_C19_1_WHERE if known_shape else ''}
+    keep_observation(ctx, holder)
     names = list(data.columns)
+    res.tally(f'individuals index:{index_kind(case, "ind_index")}')
+    res.tally(f'alternatives index:{index_kind(case, "alt_index")}')
+    res.tally(f'sample_and_merge call:{case.get("call", "first")}')
+    add_table_request(ctx, res, case, data, rec1, rec2, names, J, J2)
     for r in range(n_rows):
         row = {c: fnum(data.iloc[r][c]) for c in names}
         chosen = case['choices'][r]
@@ -616,7 +736,10 @@ def check_merge(ctx, res, case):
         ind_env = {c: case['irows'][r][j] for j, c in enumerate(case['icols'])}
         ind_env[case['choice_col']] = float(chosen)
         for c in ind_env:
-            if c in row and f2b(row[c]) != f2b(ind_env[c]):
+            if c not in row:
+                res.violate(f'merged row: the column {c} of the individual is missing from the returned database', sub, sorted(names), c,
+                            where='ChoiceSetsGeneration.sample_and_merge')
+            elif not same_cell(case, row[c], ind_env[c]):
                 res.violate(f'merged row: individual column {c} changed', sub, row[c], ind_env[c], where='ChoiceSetsGeneration.process_row')
         for i, a in enumerate(ids):
             if a not in tab:
@@ -625,7 +748,7 @@ def check_merge(ctx, res, case):
             for j, c in enumerate(cols):
                 env[c] = tab[a][j]
                 got = row.get(f'{c}_{i}')
-                if got is None or f2b(got) != f2b(tab[a][j]):
+                if got is None or not same_cell(case, got, tab[a][j]):
                     res.violate(f'merged row: {c}_{i} is not attribute {c} of sampled alternative {a}', sub, got, tab[a][j],
                                 where='ChoiceSetsGeneration.process_row')
             for nm, f in case['combined']:
@@ -635,6 +758,37 @@ def check_merge(ctx, res, case):
                 if got is None or not close(got, want, 1e-12, 1e-12):
                     res.violate(f'combined variable {nm}_{i} is not computed from the own attributes of sampled alternative {a} and the individual',
                                 sub, got, want, where=W('ChoiceSetsGeneration.define_new_variables'))
+        # ----- oracle on the second sample carried by the merged row: protocol, weights n/k, own attributes, combined variables
+        if case.get('mev'):
+            try:
+                mids = [int(row[f'{MEV_PREFIX}{idc}_{j}']) for j in range(J2)]
+                mws = [row[f'{MEV_PREFIX}{MEV_WEIGHT}_{j}'] for j in range(J2)]
+            except (KeyError, ValueError) as e:
+                res.violate(f'merged row lacks a column of the second sample: {e}', sub, sorted(names), 'columns _MEV_<col>_<j> for j < J2',
+                            where='ChoiceSetsGeneration.process_row')
+                mids = None
+            if mids is not None:
+                why2 = oracle_mev(strata_of(case, 'mev'), mids, mws)
+                if why2:
+                    res.violate(f'merged row: {why2}', sub, {'ids': mids, 'weights': mws}, 'second sample protocol', where='ChoiceSetsGeneration.process_row')
+                for j, a in enumerate(mids):
+                    if a not in tab:
+                        continue
+                    env = dict(ind_env)
+                    for jj, c in enumerate(cols):
+                        env[c] = tab[a][jj]
+                        got = row.get(f'{MEV_PREFIX}{c}_{j}')
+                        if got is None or not same_cell(case, got, tab[a][jj]):
+                            res.violate(f'merged row: {MEV_PREFIX}{c}_{j} is not attribute {c} of the alternative {a} of the second sample', sub, got, tab[a][jj],
+                                        where='ChoiceSetsGeneration.process_row')
+                    for nm, f in case['combined']:
+                        want = eval_formula(f, env)
+                        env[nm] = want
+                        got = row.get(f'{MEV_PREFIX}{nm}_{j}')
+                        if got is None or not close(got, want, 1e-12, 1e-12):
+                            res.violate(f'combined variable {MEV_PREFIX}{nm}_{j} is not computed from the own attributes of alternative {a} of the second sample and the individual',
+                                        sub, got, want, where=W('ChoiceSetsGeneration.define_new_variables'))
+                res.tally('merged_rows: second sample oracle')
         # ----- oracle: full-sample equivalence through the real engine
         if complete and full_ll is not None:
             if not close(ll_values[r], full_ll[r], 1e-9, 1e-9):
@@ -666,7 +820,7 @@ def check_merge(ctx, res, case):
                          'combined': [[n, lean_formula(f)] for n, f in case['combined']],
                          'utility': lean_formula(case['utility']), 'chosen': chosen})
 
-        def cb(ans, sub=sub, row=row, base_names=base_names, names=names, r=r, complete=complete, W=W):
+        def cb(ans, sub=sub, row=row, base_names=base_names, names=names, r=r, complete=complete, W=W, holder=holder):
             flat = ans[0].get('row') or []
             d = {}
             order = []
@@ -674,7 +828,7 @@ def check_merge(ctx, res, case):
                 if k not in d:
                     order.append(k)
                 d[k] = b2f(b)
-            if order != base_names or any(f2b(d[k]) != f2b(row[k]) for k in order):
+            if order != base_names or any(not same_cell(case, d[k], row[k]) for k in order):
                 res.diverge('merged row (process_row) vs Sampling.flattenRow', sub,
                             {k: d[k] for k in order}, {k: row[k] for k in base_names})
             defined = ans[1].get('row')
@@ -689,6 +843,8 @@ def check_merge(ctx, res, case):
             ll = ans[2].get('ll')
             if ll is None or not close(b2f(ll), ll_values[r], 1e-9, 1e-9):
                 res.diverge('likelihood of get_logit() (real engine) vs Sampling.sampledLL', sub, None if ll is None else b2f(ll), ll_values[r], where=W(''))
+            else:
+                holder['sem'][r] = b2f(ll)
             if complete:
                 fl = ans[3].get('ll')
                 if fl is None or not close(b2f(fl), full_ll[r], 1e-9, 1e-9):
@@ -697,6 +853,58 @@ def check_merge(ctx, res, case):
                     res.diverge('model: sampledLL vs fullLL under complete sampling (theorem full_sample_equiv on Float)', sub, b2f(ll), b2f(fl))
 
         ctx.batch.add_many(reqs, cb)
+
+
+def add_table_request(ctx, res, case, data, rec1, rec2, names, J, J2):
+    """the whole merged table against `Sampling.sampleAndMerge`: the individuals with their row
+    LABELS, the frames returned by the successive samplings with the labels they really carry;
+    compared with the real database position by position (cells; the labels of the result are
+    not part of the property)"""
+    sub = {'kind': 'merge', 'case': slim(case), 'row': 0}
+    n_rows = len(case['choices'])
+    labels = case.get('ind_index') if case.get('ind_index') is not None else list(range(n_rows))
+
+    def lframe(df):
+        return [[int(lab), [f2b(fnum(v)) for v in df.iloc[k]]] for k, lab in enumerate(df.index)]
+
+    try:
+        drawn = []
+        for r in range(n_rows):
+            s1 = rec1[r]
+            s2 = rec2[r] if rec2 else None
+            if list(s1.index) != list(range(len(s1))) or (s2 is not None and list(s2.index) != list(range(len(s2)))):
+                raise ValueError('label')
+            drawn.append({'cols': [str(c) for c in s1.columns], 'main': lframe(s1),
+                          'mev_cols': [str(c) for c in s2.columns] if s2 is not None else [], 'mev': lframe(s2) if s2 is not None else []})
+    except (ValueError, TypeError):
+        res.tally('mergetable_skipped: the sample frames are not labelled 0..J-1 (oracles only)')
+        return
+    inds = [[str(labels[r]), [[case['choice_col'], f2b(float(case['choices'][r]))]] + [[c, f2b(case['irows'][r][j])] for j, c in enumerate(case['icols'])]]
+            for r in range(n_rows)]
+    req = {'op': 'mergetable', 'inds': inds, 'drawn': drawn, 'alt_cols': [case['id_col']] + case['cols'], 'J': J, 'J2': J2,
+           'combined': [[n, lean_formula(f)] for n, f in case['combined']]}
+    real = [[fnum(data.iloc[r][c]) for c in names] for r in range(n_rows)]
+    where = F_C19_1_WHERE if shared_clash(case) else ''
+
+    def cb(ans):
+        rows = ans.get('rows')
+        if rows is None or len(rows) != n_rows:
+            res.diverge('Sampling.sampleAndMerge fails or has another number of rows than the real merged table', sub,
+                        None if rows is None else len(rows), n_rows, where=where)
+            return
+        for r, (lab, cells) in enumerate(rows):
+            d, order = {}, []
+            for k, b in cells:
+                if k not in d:
+                    order.append(k)
+                d[k] = b2f(b)
+            if order != names or any(not close(d[k], v, 1e-12, 1e-12) for k, v in zip(names, real[r])):
+                res.diverge('merged table (sample_and_merge) vs Sampling.sampleAndMerge, row by position', {**sub, 'row': r},
+                            {k: d[k] for k in order}, dict(zip(names, real[r])), where=where)
+                return
+        res.tally('mergetable_checked')
+
+    ctx.batch.add(req, cb)
 
 
 NEST_LABELS = ['zone', 'N', '', 'nest_1', 'nest_2', 'nest_3', 'n0', 'b10', 'b2']
@@ -799,7 +1007,7 @@ def check_nested(ctx, res, case, rng, configs=None, n_configs=3):
         return
     complete = both_complete(case)
     base = {'kind': 'nested', 'case': slim(case)}
-    sampled, refs = {}, {}
+    sampled, refs, observed = {}, {}, {}
     try:
         with core.scratch():
             context = build_context(case)
@@ -813,7 +1021,10 @@ def check_nested(ctx, res, case, rng, configs=None, n_configs=3):
             for c, nd in enumerate(configs):
                 try:
                     ll = model.get_nested_logit(build_nested_nests(case, nd))
-                    sampled[c] = [float(v) for v in np.atleast_1d(ll.get_value_c(database=db, prepare_ids=True))]
+                    observed[c] = leanrun.observe(ll, db)
+                    if 'values' not in observed[c]:
+                        raise RuntimeError(observed[c].get('error'))
+                    sampled[c] = observed[c]['values']
                 except Exception as e:  # noqa: BLE001
                     sampled[c] = e
         if complete:
@@ -839,6 +1050,8 @@ def check_nested(ctx, res, case, rng, configs=None, n_configs=3):
             res.violate(f'get_nested_logit raises on a valid context: {type(e).__name__}: {e}'[:300], sub, core.exc_kind(e), 'a log likelihood',
                         where='GenerateModel.get_nested_logit')
             continue
+        holder = {'o': observed[c], 'sub': sub, 'what': 'get_nested_logit', 'sem': [None] * len(sampled[c]), 'where': ''}
+        keep_observation(ctx, holder)
         for r, a in enumerate(sampled[c]):
             res.count({'nested': nd, 'segments': case['segments'], 'mev': case['mev'], 'row': r, 'seed': case['np_seed']}, nontrivial=True)
             if complete:
@@ -868,11 +1081,13 @@ def check_nested(ctx, res, case, rng, configs=None, n_configs=3):
                              'combined': [[n, lean_formula(f)] for n, f in case['combined']],
                              'utility': lean_formula(case['utility']), 'chosen': case['choices'][r], 'nests': lean_nests})
 
-            def cb(ans, a=a, sub=sub, r=r, ref=refs[c][r] if complete else None):
+            def cb(ans, a=a, sub=sub, r=r, ref=refs[c][r] if complete else None, holder=holder):
                 ll = ans[0].get('ll')
                 if ll is None or not close(b2f(ll), a, 1e-9, 1e-9):
                     res.diverge('likelihood of get_nested_logit() (real engine) vs Sampling.nestedSampledLL', {**sub, 'row': r},
                                 None if ll is None else b2f(ll), a)
+                else:
+                    holder['sem'][r] = b2f(ll)
                 if ref is not None:
                     fl = ans[1].get('ll')
                     if fl is None or not close(b2f(fl), ref, 1e-9, 1e-9):
@@ -923,62 +1138,197 @@ def full_reference(case, make_model):
         return [float(v) for v in np.atleast_1d(full.get_value_c(database=fdb, prepare_ids=True))]
 
 
+F_C19_3_WHERE = 'SamplingContext.__post_init__ / GenerateModel.get_cross_nested_logit: nests of the cross-nested logit carrying the same name'
+
+
+def cnl_names(nests_def):
+    return [n[2] if len(n) > 2 else f'n{j}' for j, n in enumerate(nests_def)]
+
+
+def cnl_dup_names(sub):
+    """shape of known finding F-C19-3"""
+    if not (isinstance(sub, dict) and sub.get('kind') == 'cnl'):
+        return False
+    names = cnl_names(sub.get('nests') or [])
+    return len(set(names)) < len(names)
+
+
+MATCHERS['cnl_dup_names'] = cnl_dup_names
+
+
+def gen_cnl_nests(rng, ids):
+    pool = list(ids)
+    rng.shuffle(pool)
+    n_shared = rng.randint(0, min(2, max(0, len(pool) - 2)))
+    shared, rest = pool[:n_shared], pool[n_shared:]
+    alone = rest[:rng.randint(0, 1)] if len(rest) > 2 else []
+    rest = rest[len(alone):]
+    h = rng.randint(1, max(1, len(rest) - 1))
+    groups = [rest[:h], rest[h:]]
+    nests_def = []
+    name_mode = rng.choice(['auto', 'auto', 'auto', 'pool', 'same'])
+    for j, g in enumerate(groups):
+        al = [[int(a), 1.0] for a in g]
+        for s_ in shared:
+            w = rng.choice([0.25, 0.5, 0.75])
+            al.append([int(s_), w if j == 0 else 1.0 - w])
+        if al:
+            name = f'n{j}' if name_mode == 'auto' else 'zone' if name_mode == 'same' else ['b10', 'b2', 'N', 'nest_1'][j]
+            nests_def.append([rng.choice([1.0, 1.25, 1.5, 2.0, 3.0]), sorted(al) if rng.random() < 0.5 else al, name])
+    return nests_def
+
+
 def check_cnl_full(ctx, res, case, rng, nests_def=None):
-    """complete sampling (both samples): the cross-nested logit generated on the sample equals the
-    cross-nested logit on the full choice set (numerical relation through the real engine)"""
+    """the cross-nested logit generated on the sample (`GenerateModel.get_cross_nested_logit`):
+
+    * oracle (property statement): with complete sampling of both samples its log likelihood equals
+      `models.logcnl` on the full choice set (real engine on both sides);
+    * model: `Sampling.cnlSampledLL` evaluated by the Lean driver on the real merged row must agree with
+      the engine (complete or partial sampling), `Sampling.fullCnlLL` with `models.logcnl`;
+    * the formula the code built (its real signature text) is run by the proved engine model (leanrun).
+
+    Nests carrying the same name: the model is the repaired behaviour (the context refuses them,
+    known finding F-C19-3); accepted outcomes are a BiogemeError or the right likelihood."""
     from biogeme.expressions import Beta
     from biogeme import models
     from biogeme.nests import OneNestForCrossNestedLogit, NestsForCrossNestedLogit
     from biogeme.sampling_of_alternatives import ChoiceSetsGeneration, GenerateModel
 
     if nests_def is None:
-        pool = list(case['ids'])
-        rng.shuffle(pool)
-        n_shared = rng.randint(0, min(2, max(0, len(pool) - 2)))
-        shared, rest = pool[:n_shared], pool[n_shared:]
-        alone = rest[:rng.randint(0, 1)] if len(rest) > 2 else []
-        rest = rest[len(alone):]
-        h = rng.randint(1, max(1, len(rest) - 1))
-        groups = [rest[:h], rest[h:]]
-        nests_def = []
-        for j, g in enumerate(groups):
-            al = [[int(a), 1.0] for a in g]
-            for s_ in shared:
-                w = rng.choice([0.25, 0.5, 0.75])
-                al.append([int(s_), w if j == 0 else 1.0 - w])
-            if al:
-                nests_def.append([rng.choice([1.0, 1.25, 1.5, 2.0, 3.0]), sorted(al)])
-    nests_def = [[float(mu), [[int(a), float(w)] for a, w in al]] for mu, al in nests_def]
+        nests_def = gen_cnl_nests(rng, case['ids'])
+    names = cnl_names(nests_def)
+    nests_def = [[float(n[0]), [[int(a), float(w)] for a, w in n[1]], names[j]] for j, n in enumerate(nests_def)]
     if not nests_def:
         return
+    dup = len(set(names)) < len(names)
     sub = {'kind': 'cnl', 'case': slim(case), 'nests': nests_def}
+    where = F_C19_3_WHERE if dup else 'GenerateModel.get_cross_nested_logit'
+    complete = both_complete(case)
+    res.tally('cnl:names ' + ('repeated' if dup else 'distinct'))
 
     def mk_nests():
         return NestsForCrossNestedLogit(choice_set=list(case['ids']), tuple_of_nests=tuple(
-            OneNestForCrossNestedLogit(nest_param=Beta(f'MU{j}', mu, 1.0, None, 0), dict_of_alpha={a: w for a, w in al}, name=f'n{j}')
-            for j, (mu, al) in enumerate(nests_def)))
+            OneNestForCrossNestedLogit(nest_param=Beta(f'MU{j}', mu, 1.0, None, 0), dict_of_alpha={a: w for a, w in al}, name=nm)
+            for j, (mu, al, nm) in enumerate(nests_def)))
 
     try:
         with core.scratch():
-            context = build_context(case, cnl_nests=mk_nests())
+            try:
+                context = build_context(case, cnl_nests=mk_nests())
+            except Exception as e:  # noqa: BLE001
+                if dup and core.exc_kind(e) == 'BiogemeError':
+                    res.count({'cnl_refused': nests_def}, nontrivial=True)
+                    res.tally('cnl:repeated names refused')
+                    return
+                raise
             gen = ChoiceSetsGeneration(context)
             np.random.seed(case['np_seed'])
             db = gen.sample_and_merge(recycle=False)
+            data = db.data.copy()
+            attributes = sorted(context.attributes)
+            J, J2 = context.total_sample_size, context.second_sample_size
             ll = GenerateModel(context).get_cross_nested_logit()
-            sampled = [float(v) for v in np.atleast_1d(ll.get_value_c(database=db, prepare_ids=True))]
-        ref = full_reference(case, lambda V, choice: models.logcnl(V, None, mk_nests(), choice))
+            obs = leanrun.observe(ll, db)
+            if 'values' not in obs:
+                raise RuntimeError(obs.get('error'))
+            sampled = obs['values']
+        ref = full_reference(case, lambda V, choice: models.logcnl(V, None, mk_nests(), choice)) if complete else None
     except Exception as e:  # noqa: BLE001
         res.count({'cnl_raises': sub['nests'], 'seed': case['np_seed']})
         res.violate(f'get_cross_nested_logit / logcnl raises on a valid context: {type(e).__name__}: {e}'[:300], sub, core.exc_kind(e), 'log likelihoods',
-                    where='GenerateModel.get_cross_nested_logit')
+                    where=where)
         return
-    for r, (a, b) in enumerate(zip(sampled, ref)):
-        res.count({'cnl': nests_def, 'segments': case['segments'], 'mev': case['mev']['segments'], 'row': r, 'seed': case['np_seed']}, nontrivial=True)
-        res.tally('cnl_full_sample_equiv_checked')
-        if not close(a, b, 1e-8, 1e-8):
-            res.violate('complete sampling: log likelihood of get_cross_nested_logit() differs from the cross-nested logit on the full choice set',
-                        {**sub, 'row': r}, a, b, where='GenerateModel.get_cross_nested_logit')
-            return
+    holder = {'o': obs, 'sub': sub, 'what': 'get_cross_nested_logit', 'sem': [None] * len(sampled), 'where': where if dup else ''}
+    if not dup:
+        keep_observation(ctx, holder)
+    names_cols = list(data.columns)
+    lean_nests = [[f2b(mu), nm, [[a, f2b(w)] for a, w in al]] for mu, al, nm in nests_def]
+    for r, a in enumerate(sampled):
+        res.count({'cnl': nests_def, 'segments': case['segments'], 'mev': case['mev']['segments'], 'sizes': [case['sizes'], case['mev']['sizes']],
+                   'row': r, 'seed': case['np_seed']}, nontrivial=True)
+        if complete:
+            res.tally('cnl_full_sample_equiv_checked')
+            if not close(a, ref[r], 1e-8, 1e-8):
+                res.violate('complete sampling: log likelihood of get_cross_nested_logit() differs from the cross-nested logit on the full choice set',
+                            {**sub, 'row': r}, a, ref[r], where=where)
+                return
+        else:
+            res.tally('cnl_partial_sample_model_checked')
+        if dup:
+            continue
+        if not complete:
+            # a nest of a sampled alternative without any row in the second sample: 0 ** (1/mu - 1) in the code
+            main_ids = [int(fnum(data.iloc[r][f'{case["id_col"]}_{i}'])) for i in range(J)]
+            mev_ids = [int(fnum(data.iloc[r][f'{MEV_PREFIX}{case["id_col"]}_{i}'])) for i in range(J2)]
+            if any({x for x, _ in al} & set(main_ids) and not {x for x, _ in al} & set(mev_ids) for _, al, _ in nests_def) or not math.isfinite(a):
+                res.tally('cnl_partial_sample_empty_nest_skipped')
+                continue
+        full_row = [[k, f2b(fnum(data.iloc[r][k]))] for k in names_cols]
+        reqs = [{'op': 'cnlll', 'row': full_row, 'attributes': attributes, 'utility': lean_formula(case['utility']), 'J': J, 'J2': J2, 'nests': lean_nests}]
+        if complete:
+            ind_named = [[case['choice_col'], f2b(float(case['choices'][r]))]] + [[k, f2b(case['irows'][r][j])] for j, k in enumerate(case['icols'])]
+            reqs.append({'op': 'fullcnlll', 'ind': ind_named, 'alt_cols': case['cols'], 'ids': case['ids'],
+                         'alt_rows': [[f2b(v) for v in vals] for vals in case['values']],
+                         'combined': [[n, lean_formula(f)] for n, f in case['combined']],
+                         'utility': lean_formula(case['utility']), 'chosen': case['choices'][r], 'nests': lean_nests})
+
+        def cb(ans, a=a, r=r, ref=ref[r] if complete else None, holder=holder):
+            ll_ = ans[0].get('ll')
+            if ll_ is None or not close(b2f(ll_), a, 1e-9, 1e-9):
+                res.diverge('likelihood of get_cross_nested_logit() (real engine) vs Sampling.cnlSampledLL', {**sub, 'row': r},
+                            None if ll_ is None else b2f(ll_), a)
+            else:
+                holder['sem'][r] = b2f(ll_)
+            if ref is not None:
+                fl = ans[1].get('ll')
+                if fl is None or not close(b2f(fl), ref, 1e-9, 1e-9):
+                    res.diverge('logcnl on the full choice set (real engine) vs Sampling.fullCnlLL', {**sub, 'row': r}, None if fl is None else b2f(fl), ref)
+                if fl is not None and ll_ is not None and not close(b2f(fl), b2f(ll_), 1e-9, 1e-9):
+                    res.diverge('model: cnlSampledLL vs fullCnlLL under complete sampling (theorem cnl_full_sample_equiv on Float)', {**sub, 'row': r},
+                                b2f(ll_), b2f(fl))
+
+        ctx.batch.add_many(reqs, cb)
+
+
+LEANRUN = []
+LEANRUN_CAP = {'get_logit': 30, 'get_nested_logit': 20, 'get_cross_nested_logit': 15}
+
+
+def keep_observation(ctx, holder):
+    """a bounded number of observed likelihoods per kind goes to the engine model (the texts are long)"""
+    cap = LEANRUN_CAP[holder["what"]] * (1 if getattr(ctx, "quick", True) else 3)
+    if sum(1 for h in LEANRUN if h['what'] == holder['what']) < cap:
+        LEANRUN.append(holder)
+
+
+def finish_leanrun(res):
+    """after the batch: the REAL signature text of the observed likelihoods (get_logit, get_nested_logit,
+    get_cross_nested_logit) is run by the proved model of the engine (C01.engine_reads_text / engine_correct);
+    on every row where the semantic Lean model of the generated likelihood is defined and agrees with the real
+    engine, the denotation of the formula the code built must agree with both"""
+    store = list(LEANRUN)
+    del LEANRUN[:]
+    if not store:
+        return
+    leans = leanrun.lean_values([h['o'] for h in store])
+    for h, lv in zip(store, leans):
+        res.tally(f'leanrun:{h["what"]} observed')
+        if lv is None:
+            continue
+        if isinstance(lv, tuple):
+            # operators outside the engine model: observed, not an alarm
+            res.tally(f'leanrun:{h["what"]} text not readable by the engine model ({lv[1]})')
+            continue
+        for r, (v, sem, real) in enumerate(zip(lv, h['sem'], h['o']['values'])):
+            if sem is None or not math.isfinite(real):
+                res.tally('leanrun: row outside the regular domain or model/engine already reported (skipped)')
+                continue
+            res.tally(f'leanrun:{h["what"]} formula vs semantic model')
+            if isinstance(v, tuple) or not close(v, sem, 1e-9, 1e-9) or not close(v, real, 1e-9, 1e-9):
+                res.diverge(f'{h["what"]}: the formula the code built (its signature text run by the engine model) vs the Lean model of the '
+                            f'generated likelihood vs the real engine', {**h['sub'], 'row': r}, {'semantic model': sem, 'engine model': v if not isinstance(v, tuple) else list(v)},
+                            real, where=h['where'])
+                break
 
 
 # ----------------------------------------------------------------------------- validation streams
@@ -1157,6 +1507,33 @@ def check_partition_case(ctx, res, pc, kind):
     ctx.batch.add({'op': 'partition', 'segments': pc['segments'], 'full': pc['full']}, cb)
 
 
+def check_segsize(ctx, res, n, m):
+    """`generate_segment_size(n, m)` (helper producing the sample sizes of a partition) against the
+    model and the oracle: one size per segment, summing to the requested total, as equal as possible"""
+    from biogeme.sampling_of_alternatives.sampling_of_alternatives import generate_segment_size
+
+    try:
+        got = [int(x) for x in generate_segment_size(n, m)]
+    except Exception as e:  # noqa: BLE001
+        got = core.exc_kind(e)
+    sub = {'kind': 'segsize', 'n': n, 'm': m}
+    res.count(sub, nontrivial=not isinstance(got, list) or (m >= 2 and n % m != 0))
+    res.tally('segsize:' + ('refused' if not isinstance(got, list) else 'even' if n % m == 0 else 'remainder'))
+    if n >= 0 and m > 0:
+        if not isinstance(got, list):
+            res.violate('generate_segment_size raises on a valid request', sub, got, 'sizes', where='generate_segment_size')
+        elif len(got) != m or sum(got) != n or max(got) - min(got) > 1 or min(got) < 0:
+            res.violate('generate_segment_size: the sizes do not cover the requested total evenly', sub, got,
+                        f'{m} sizes summing to {n}, differing by at most 1', where='generate_segment_size')
+
+    def cb(ans, got=got, sub=sub):
+        model = ans.get('ok') if 'ok' in ans else 'ValueError'
+        if model != got:
+            res.diverge('generate_segment_size vs Sampling.generateSegmentSize', sub, model, got)
+
+    ctx.batch.add({'op': 'segsize', 'n': n, 'm': m}, cb)
+
+
 # ----------------------------------------------------------------------------- corpus / check / search / replay
 
 CORPUS = [
@@ -1175,6 +1552,24 @@ CORPUS = [
      'segments': [[4, 17], [9, 30]], 'sizes': [2, 1], 'mev': None, 'choice_col': 'choice', 'icols': ['age'], 'irows': [[2.5], [3.0]], 'choices': [17, 4],
      'combined': [['sq', ['+', ['*', ['v', 'a'], ['v', 'a']], ['v', 'b2']]]],
      'utility': ['/', ['+', ['*', ['b', 'b1', 0.5], ['v', 'a']], ['*', ['v', 'a'], ['v', 'age']]], ['c', 64.0]], 'share': True, 'np_seed': 3},
+]
+
+# row labels that are not row positions (individuals sorted / shuffled / concatenated / filtered; table of
+# alternatives indexed by a name), database taken from the first call, a second call, the recycled file
+_LABEL_BASE = {
+    'id_col': 'alt_id', 'ids': [12, 3, 21, 7, 2, 15, 10], 'cols': ['cost', 'time'],
+    'values': [[2.5, 30.0], [2.0, 20.0], [4.0, 12.0], [0.5, 15.0], [1.5, 10.0], [1.0, 25.0], [3.0, 5.0]], 'int_valued': False,
+    'segments': [[2, 3, 7], [10, 12, 15, 21]], 'sizes': [2, 3], 'mev': None, 'choice_col': 'choice', 'icols': ['age'],
+    'irows': [[20.0], [30.0], [40.0], [50.0], [60.0]], 'choices': [3, 2, 10, 21, 7],
+    'combined': [['at', ['*', ['v', 'age'], ['v', 'time']]]],
+    'utility': ['+', ['*', ['b', 'B_cost', -0.75], ['v', 'cost']], ['*', ['b', 'B_at', -0.001953125], ['v', 'at']]], 'np_seed': 11, 'share': False,
+}
+CORPUS += [
+    {**_LABEL_BASE, 'ind_index': [3, 0, 4, 1, 2], 'alt_index': None, 'call': 'first'},
+    {**_LABEL_BASE, 'ind_index': [1, 2, 3, 4, 5], 'alt_index': [4, 0, 6, 2, 1, 5, 3], 'call': 'second', 'sizes': [3, 4]},
+    {**_LABEL_BASE, 'ind_index': [0, 0, 1, 1, 0], 'alt_index': ['e', 'a', 'g', 'c', 'b', 'f', 'd'], 'call': 'recycle',
+     'mev': {'segments': [[2, 3, 7, 10], [12, 15, 21]], 'sizes': [2, 2]}},
+    {**_LABEL_BASE, 'ind_index': [10, 12, 15, 11, 40], 'alt_index': [0, 0, 0, 1, 1, 1, 1], 'call': 'first', 'sizes': [3, 4]},
 ]
 
 # Partition: overlaps between segments that are not neighbours in the list, with / without full set
@@ -1204,6 +1599,13 @@ NESTED_CORPUS = [
         {'syntax': 'objects', 'mu_mode': 'shared', 'nests': [{'mu': 1.5, 'alts': [11, 12], 'name': 'a'}, {'mu': 1.5, 'alts': [13, 17, 16], 'name': 'b'}]},
         {'syntax': 'tuples', 'mu_mode': 'float', 'nests': [{'mu': 1.25, 'alts': [14, 13], 'name': None}, {'mu': 2.0, 'alts': [15, 16, 11], 'name': None}]},
     ]),
+]
+
+# cross-nested logit on the sample, table of alternatives whose labels are a permutation / repeated / strings
+CNL_CORPUS = [
+    ({**_NESTED_CASE, 'alt_index': ai, 'ind_index': [2, 0, 1]},
+     [[1.5, [[11, 1.0], [12, 0.25], [13, 1.0], [14, 0.5]]], [2.0, [[12, 0.75], [14, 0.5], [15, 1.0], [16, 1.0], [17, 1.0]]]])
+    for ai in ([3, 0, 6, 1, 5, 2, 4], [0, 0, 1, 1, 2, 2, 3], ['g', 'a', 'f', 'b', 'e', 'c', 'd'])
 ]
 
 # input of known finding F-C19-1 (kept identical to known_findings.d/C19.json)
@@ -1252,13 +1654,13 @@ def check(ctx) -> Result:
     for _ in range(ctx.n(3, 30)):
         run_case(ctx, res, gen_known_shape(rng), 1)
         res.tally('known_shape_F-C19-1')
-    for _ in range(ctx.n(100, 1500)):
+    for _ in range(ctx.n(100, 1000)):
         case = gen_case(rng)
         run_case(ctx, res, case, ctx.n(3, 6))
         if sum(1 for v in res.violations if v.get('where') != F_C19_1_WHERE) > 5:
             break
     # complete sampling on purpose (the equivalence clause)
-    for _ in range(ctx.n(40, 500)):
+    for _ in range(ctx.n(40, 400)):
         case = gen_case(rng, complete=True)
         run_case(ctx, res, case, 1)
     # nested / cross-nested logit generated on the sample: complete sampling of both samples (the
@@ -1266,12 +1668,20 @@ def check(ctx) -> Result:
     for case, configs in NESTED_CORPUS:
         check_nested(ctx, res, case, rng, configs=configs)
         res.tally('corpus')
+    for case, nests_def in CNL_CORPUS:
+        check_cnl_full(ctx, res, case, rng, nests_def=nests_def)
+        res.tally('corpus')
     done = 0
     for _ in range(ctx.n(60, 900)):
         if done >= ctx.n(12, 150):
             break
         case = gen_case(rng, complete=True, with_mev=True, size=rng.randint(4, 10))
         case['share'] = False
+        if case.get('alt_index') is None and rng.random() < 0.5:
+            # the memberships / alphas of the nests are columns added to the table of alternatives: labels matter there
+            ak = rng.choice(INDEX_KINDS)
+            case['alt_index'], case['index_kinds']['alt_index'] = gen_index(rng, len(case['ids']), ak), ak
+        res.tally(f'nested/cnl: alternatives index:{index_kind(case, "alt_index")}')
         check_nested(ctx, res, case, rng, n_configs=3)
         if sorted(set().union(*[set(x) for x in case['mev']['segments']])) == sorted(case['ids']):
             check_cnl_full(ctx, res, case, rng)
@@ -1280,9 +1690,15 @@ def check(ctx) -> Result:
         case = gen_case(rng, complete=False, with_mev=True, size=rng.randint(4, 10))
         case['share'] = False
         check_nested(ctx, res, case, rng, n_configs=2)
+        if sorted(set().union(*[set(x) for x in case['mev']['segments']])) == sorted(case['ids']):
+            check_cnl_full(ctx, res, case, rng)
     for _ in range(ctx.n(150, 2000)):
         case, kind, raw = gen_context_case(rng)
         check_context(ctx, res, case, kind, raw)
+    for n, m in [(10, 3), (2, 5), (0, 3), (7, 7), (7, 1), (-1, 2), (3, 0), (3, -2), (0, 0)]:
+        check_segsize(ctx, res, n, m)
+    for _ in range(ctx.n(60, 600)):
+        check_segsize(ctx, res, rng.choice([rng.randint(-2, 40), rng.randint(0, 400)]), rng.choice([rng.randint(-1, 9), rng.randint(1, 30)]))
     for pc in PARTITION_CORPUS:
         check_partition_case(ctx, res, pc, 'corpus')
     for _ in range(ctx.n(300, 4000)):
@@ -1293,6 +1709,7 @@ def check(ctx) -> Result:
         for pc in small_partition_cases(list(universe), max_len):
             check_partition_case(ctx, res, pc, 'small')
     ctx.batch.flush()
+    finish_leanrun(res)
     return res
 
 
@@ -1321,8 +1738,9 @@ def search(ctx, res, broken):
         except Exception as e:  # noqa: BLE001
             res.notes.append(f'search: {type(e).__name__}: {e}')
             continue
-        if r2.violations:
-            res.violations.extend(r2.violations[:1])
+        found = [v for v in r2.violations if v.get('where') not in (F_C19_1_WHERE, F_C19_3_WHERE)]
+        if found:
+            res.violations.extend(found[:1])
             return
     for _ in range(40):
         r2 = Result()
@@ -1335,8 +1753,9 @@ def search(ctx, res, broken):
         except Exception as e:  # noqa: BLE001
             res.notes.append(f'search: {type(e).__name__}: {e}')
             continue
-        if r2.violations:
-            res.violations.extend(r2.violations[:1])
+        found = [v for v in r2.violations if v.get('where') not in (F_C19_1_WHERE, F_C19_3_WHERE)]
+        if found:
+            res.violations.extend(found[:1])
             return
     for _ in range(400):
         r2 = Result()
@@ -1344,8 +1763,10 @@ def search(ctx, res, broken):
         check_context(shim, r2, case, kind, raw)
         pc, k2 = gen_partition_case(rng)
         check_partition_case(shim, r2, pc, k2)
-        if r2.violations:
-            res.violations.extend(r2.violations[:1])
+        check_segsize(shim, r2, rng.randint(0, 60), rng.randint(1, 12))
+        found = [v for v in r2.violations if v.get('where') not in (F_C19_1_WHERE, F_C19_3_WHERE)]
+        if found:
+            res.violations.extend(found[:1])
             return
 
 
@@ -1417,6 +1838,9 @@ def replay(ctx, obj):
         out.update({'property_fails': bool(r.violations), 'violations': r.violations[:2]})
     elif kind == 'partition':
         check_partition_case(shim, r, sub['case'], sub['fault'])
+        out.update({'property_fails': bool(r.violations), 'violations': r.violations[:2]})
+    elif kind == 'segsize':
+        check_segsize(shim, r, sub['n'], sub['m'])
         out.update({'property_fails': bool(r.violations), 'violations': r.violations[:2]})
     else:
         out.update({'property_fails': False, 'note': 'nothing to replay (no concrete input in this file)'})
